@@ -298,6 +298,15 @@ func init() {
 	addScoped("C07", "D10", in("clickhouse_planner"), d10)
 	addScoped("C09", "D10", in("internal_planner"), d10)
 	addScoped("C11", "D10", in("reader/traceql/"), d10)
+	o4 := "(O4) the arrays of a chunk that was handed to the insert path by a channel send are never re-sliced into the next chunk."
+	addScoped("C03", "O4", in(""), o4)
+	addScoped("C02", "O4", in(""), o4)
+	addScoped("C12", "F7", in(""), "(F7) a pipeline stage that leaves its receive loop before the upstream channel is closed starts a goroutine draining it, so the stages above it (down to the database scan) can end.")
+	addScoped("C14", "H6", in(""), "(H6) per-execution flags kept in a plan object (isAliased) are reset on every return of Process or initialised before any read, so each execution starts from the same state.")
+	addScoped("C10", "E5", in(""), "(E5) rendered / escaped SQL text is never part of a fmt format string (its % sequences would be interpreted).")
+	r1 := "(R1) where a line reader returns data together with io.EOF, the EOF branch does not drop that data (the last record of a body without trailing newline)."
+	addScoped("C06", "R1", in("zipkin", "Span", "span", "line readers"), r1)
+	addScoped("C03", "R1", func(k string) bool { return !hasAny(k, "zipkin") }, r1)
 	addScoped("C14", "H5", in(""), "(H5) no package-level variable holds SQL builder objects, so a planner that rewrites columns in place cannot change later translations.")
 	properties["C01"].Filter = keepIf(func(rule, key string) bool { return rule != "O1" || strings.HasPrefix(key, "writer/") })
 	properties["C02"].Filter = keepIf(func(rule, key string) bool { return rule != "O1" || strings.HasPrefix(key, "writer/") })
